@@ -34,6 +34,13 @@ BirthdayOK == (Rec.op = "birthday" /\ Done) =>
     /\ Rec.collisions * 2 * Rec.space <= 5 * Rec.M * (Rec.M - 1)
     /\ Has("outputs") => \A j \in 1..Len(Rec.outputs) : ValidMap(DecM(Rec.outputs[j]))
 \* fair binary events (sign bits, measurement coins): |c0 - c1| <= 8 sqrt(n)  <=>  (c0-c1)^2 <= 64 n
+\* per-qubit letter tallies of the images of X_1 and Z_1 (rows 1, 2 of the map) over M samples: each of I, X, Y, Z
+\* in a quarter of the samples -- (4c - M)^2 <= 64 * 3M is 8 sigma of the binomial(M, 1/4); counts add up to M
+MarginalOK == (Rec.op = "marginal" /\ Done) =>
+    \A row \in 1..2 : \A q \in 1..Rec.n :
+        LET c == Rec.cnt[row][q] IN
+        /\ c[1] + c[2] + c[3] + c[4] = Rec.M
+        /\ \A lt \in 1..4 : (4 * c[lt] - Rec.M) * (4 * c[lt] - Rec.M) <= 192 * Rec.M
 FairOK == (Rec.op = "fair" /\ Done) => (Rec.c0 - Rec.c1) * (Rec.c0 - Rec.c1) <= 64 * (Rec.c0 + Rec.c1) /\ Rec.c0 + Rec.c1 >= 1000
 \* gates without maps are resampled at every call: two calls under one seed differ for some seed of the block
 ResampleOK == (Rec.op = "resample" /\ Done) => Rec.differ >= 1 /\ Rec.compile_refused = TRUE
